@@ -727,6 +727,16 @@ impl FailSafe {
         Ok(fabric)
     }
 
+    /// Undo what a successful `add_noc` did to the fail-safe context, when the rest of
+    /// the `AddNOC` command fails after the fact: re-associate the context with the
+    /// fabric that armed it and forget that `AddNOC` was received.
+    pub fn revert_add_noc(&mut self, arming_fab_idx: NonZeroU8) {
+        if let State::Armed(ctx) = &mut self.state {
+            ctx.fab_idx = arming_fab_idx.get();
+            ctx.flags.remove(NocFlags::ADD_NOC_RECVD);
+        }
+    }
+
     pub fn breadcrumb(&self) -> u64 {
         self.breadcrumb
     }
